@@ -479,6 +479,20 @@ theorem bnTerms_zipApply (env : Env) {lb : Layer} (h : AllIdem lb.qs) (hlen : 4 
     simp at h0 h1 h2 h3 ⊢
     simp [h0, h1, h2, h3]
 
+/-- the same when the main loop zipped ALL of `get_quantizers()` positionally (a layer whose class is
+    NAMED QBatchNormalization but which is not an instance of the library class: `bn = none`, so
+    add_bn_fusing_weights reads it with scale and center present): positions 0 … 3 coincide -/
+theorem bnTerms_zipApply_all (env : Env) {lb : Layer} (h : AllIdem lb.qs) (hlen : 4 ≤ lb.qs.length)
+    (hbn : lb.bn = none) (bw : List Tensor) (ub : Bool) (pw : List Tensor) :
+    bnTerms env lb (zipApply lb.qs bw) ub pw = bnTerms env lb bw ub pw := by
+  have h0 := applyQ_getD_zipApply h bw 0 (by omega)
+  have h1 := applyQ_getD_zipApply h bw 1 (by omega)
+  have h2 := applyQ_getD_zipApply h bw 2 (by omega)
+  have h3 := applyQ_getD_zipApply h bw 3 (by omega)
+  unfold bnTerms
+  simp only [hbn, Option.getD_none, defaultBN, if_true, Nat.zero_add, Nat.reduceAdd] at h0 h1 h2 h3 ⊢
+  simp only [h0, h1, h2, h3]
+
 theorem fuseTerms_congr (env : Env) {M : Model} (hq : ModelIdem M) (ha : FuseAligned M)
     {i : ℕ} {l : Layer} (hl : M[i]? = some l) {w w' : ℕ → List Tensor}
     (hw : ∀ k, w' k = S M k (w k)) :
@@ -494,14 +508,18 @@ theorem fuseTerms_congr (env : Env) {M : Model} (hq : ModelIdem M) (ha : FuseAli
       obtain ⟨hkind, hlen⟩ := ha i b hf lb hb
       have hlq : AllIdem l.qs := hq l (List.mem_of_getElem? hl)
       have hbq : AllIdem lb.qs := hq lb (List.mem_of_getElem? hb)
-      have hcls : lb.cls = "QBatchNormalization" := by
-        have := fuseOf_cls hf
-        simpa [clsOf, hb] using this
       dsimp only
       rw [hw i, hw b, S_eq_of_get hl, S_eq_of_get hb, stepWeights_idem hlq]
-      have : stepWeights lb (w b) = zipApply (bnQs (lb.bn.getD defaultBN) lb.qs) (w b) := by
-        simp [stepWeights, layerQs, hkind, hcls]
-      rw [this, bnTerms_zipApply env hbq hlen]
+      -- the main loop's pairing follows `isinstance` (`lb.bn`), not the class name the fusing reads
+      cases hbn : lb.bn with
+      | some info =>
+        have : stepWeights lb (w b) = zipApply (bnQs (lb.bn.getD defaultBN) lb.qs) (w b) := by
+          simp [stepWeights, layerQs, hkind, hbn]
+        rw [this, bnTerms_zipApply env hbq hlen]
+      | none =>
+        have : stepWeights lb (w b) = zipApply lb.qs (w b) := by
+          simp [stepWeights, layerQs, hkind, hbn]
+        rw [this, bnTerms_zipApply_all env hbq hlen hbn]
 
 theorem mkEntry_congr (env : Env) {M : Model} (hq : ModelIdem M) (ha : FuseAligned M)
     {i : ℕ} {l : Layer} (hl : M[i]? = some l) {w w' : ℕ → List Tensor}
